@@ -115,17 +115,17 @@ VH_DRIVER(parse_log){
   Rng R(g.seed); LogState S; std::vector<int> all={0,1,2,3,4,5};
   std::vector<Text> in;
   if(mode=="comp"||mode=="c04"){
+    ip_family(R,in,g.thorough); late_shapes(in); size_t nforced=in.size();
     accepting_over(A("a1:/?#.%4@+-"),g.thorough?7:5,T(""),in);
     accepting_over(A("/a1:@[].%425v"),g.thorough?6:4,T("//"),in);
     accepting_over(A("]:.01259afFg"),g.thorough?7:5,T("//["),in);
     accepting_over(A("]:.0129a"),g.thorough?9:7,T("//[::"),in);
-    ip_family(R,in,g.thorough); late_shapes(in);
     { auto c=corpus_uris(R,g.thorough,2000); in.insert(in.end(),c.begin(),c.end()); }
     // random accepting walks, long
     for(int w=0;w<(g.thorough?200000:3000);++w){ Text s; int st=0; int len=R.below(40); for(int i=0;i<len;++i){ int c=R.below(RT.k); int tries=0; while(RT.next[(size_t)st*RT.k+c]<0&&tries<50){c=R.below(RT.k);++tries;} if(RT.next[(size_t)st*RT.k+c]<0) break; st=RT.next[(size_t)st*RT.k+c]; int cp=RT.reps[c]; int cand=R.below(256); if(RT.class_of(cand)==c) cp=cand; s.push_back(cp);} cat(s,RT.comp[st]); in.push_back(s); }
     // de-duplicate, then subsample deterministically to the requested volume (systematic families first)
-    { std::unordered_set<uint64_t> seen; std::vector<Text> u; for(auto&t:in) if(seen.insert(fnv(jtext(t))).second) u.push_back(t); in.swap(u); }
-    if((long)in.size()>want){ std::vector<Text> keep; double step=(double)in.size()/want; for(long i=0;i<want;++i) keep.push_back(in[(size_t)(i*step)]); in.swap(keep); }
+    { std::unordered_set<uint64_t> seen; std::vector<Text> u; size_t kept=0; for(size_t i=0;i<in.size();++i) if(seen.insert(fnv(jtext(in[i]))).second){ u.push_back(in[i]); if(i<nforced) kept=u.size(); } in.swap(u); nforced=kept; }
+    if((long)in.size()>want+(long)nforced){ std::vector<Text> keep(in.begin(),in.begin()+nforced); double step=(double)(in.size()-nforced)/want; for(long i=0;i<want;++i) keep.push_back(in[nforced+(size_t)(i*step)]); in.swap(keep); }
     for(auto&t:in) log_input(S,t, (S.n%8==0)? all : std::vector<int>{(int)(S.n%6)});
     // uriParseIpFourAddress: every combination of boundary octets in each position, wrong part counts, leading zeros, stray characters
     { std::vector<std::string> oc={"0","9","10","99","100","199","200","249","250","255","256","260","299","300","999","00","01","1a","","25","2"}; std::vector<Text> fam;
